@@ -228,6 +228,65 @@ for direction in ("dead-source", "dead-person"):
                  {"scenario": "dead-neighbour", "direction": direction})
     elif st0 == "ok" and got != want:
         rep.fail("sub_org::dead-unswept-neighbour", f"{direction}: {got}; after a sweep: {want}", {"scenario": "dead-neighbour", "direction": direction})
+# ---- a dead instance was related to a SURVIVING one; after the sweep a new instance (taking over the freed node index) is related to
+# the same survivor; and: a relation first inferred, then asserted explicitly, between instances that all die and are replaced
+def recycle_scenario(kind, prefix):
+    fresh_graph()
+    if kind == "survivor":
+        b, c = Company(name="b"), Company(name="c")
+        b.sub_organization_of.append(c)
+        if prefix:
+            dead = [Company(name=f"dead{i}") for i in range(3)]
+            for d_ in dead:
+                d_.sub_organization_of.append(b)
+            del dead, d_
+            gc.collect()
+            SymbolGraph().remove_dead_instances()
+        new = Company(name="new")
+        new.sub_organization_of.append(b)
+        objs = {"new": new, "b": b, "c": c}
+    else:
+        g = SymbolGraph()
+        idx = lambda inst: g.get_wrapped_instance(inst).index
+        p = c = None
+        if prefix:
+            def past():
+                c0 = Company(name="old_c")
+                p0 = Person(name="old_p")
+                ceo0 = CEO(person=p0)
+                ceo0.head_of = c0                 # infers works_for / member_of for the role taker
+                p0.works_for = c0                 # ... then the same relation is asserted explicitly
+                return idx(p0), idx(c0)
+            old = past()
+            gc.collect()
+            g.remove_dead_instances()
+            # the new person and company must sit exactly on the node indices of the old ones: try the creation orders
+            for order in itertools.permutations(["person", "company", "bystander"]):
+                made = {k: (Company(name="c") if k == "company" else Person(name="p" if k == "person" else "bystander")) for k in order}
+                if (idx(made["person"]), idx(made["company"])) == old:
+                    p, c = made["person"], made["company"]
+                    break
+                del made
+                gc.collect()
+                g.remove_dead_instances()
+            if p is None:
+                return None
+        else:
+            p, c = Person(name="p"), Company(name="c")
+        p.works_for = c
+        objs = {"p": p, "c": c}
+    o = observe(objs)
+    return o["fields"], o["relations"]
+
+
+for kind in ("survivor", "explicit-after-inferred"):
+    st0, want = guarded(lambda: recycle_scenario(kind, False))
+    st, got = guarded(lambda: recycle_scenario(kind, True))
+    rep.case(("recycle", kind), sample={"scenario": "recycled node indices", "kind": kind})
+    if st == "exc":
+        rep.fail(f"recycled-indices::{kind}::raised::{type(got).__name__}", f"{kind}: {type(got).__name__}: {got}", {"scenario": "recycle", "kind": kind})
+    elif st0 == "ok" and got is not None and got != want:
+        rep.fail(f"recycled-indices::{kind}", f"{kind}: after the prefix {got}; on a fresh graph {want}", {"scenario": "recycle", "kind": kind})
 # ---- a sweep happens while a LIVE, related instance is falsy (its class has __len__): nothing of it may be swept
 from dataclasses import dataclass, field
 from typing_extensions import List
